@@ -354,3 +354,32 @@ async fn replay_f_c05a_virtual_prev_keeps_agreeing_entries() {
         ctx.raft_log.last_entry_id()
     );
 }
+
+// ---------------------------------------------------------------------------------------------
+// F-C35a  a storage error while reading is reported to the client as "key absent"
+//         (RocksDBStateMachine::get returns Err(NotServing) while a snapshot is being restored)
+// ---------------------------------------------------------------------------------------------
+#[test]
+fn replay_f_c35a_a_storage_error_is_not_reported_as_absent() {
+    use crate::state_machine_handler::DefaultStateMachineHandler;
+    use crate::state_machine_handler::StateMachineHandler;
+    let mut sm = MockStateMachine::new();
+    // key "k" EXISTS in the store, but the engine cannot serve reads right now
+    sm.expect_get().returning(|_| {
+        Err(StorageError::NotServing("State machine is restoring from snapshot".to_string()).into())
+    });
+    let handler = DefaultStateMachineHandler::<MockTypeConfig>::new_without_watch(
+        1,
+        0,
+        Arc::new(sm),
+        crate::test_utils::snapshot_config(std::path::PathBuf::from("/tmp/verif_replay_f_c35a")),
+        MockSnapshotPolicy::new(),
+    );
+    let reply = handler.read_from_state_machine(vec![bytes::Bytes::from_static(b"k")]);
+    // every read path turns `None` into a SUCCESSFUL reply with no entries (`unwrap_or_default()`),
+    // which both clients re-align to "k is absent"
+    assert!(
+        reply.is_some(),
+        "read_from_state_machine returned None for an existing key whose read failed: the client is told the key is absent"
+    );
+}
